@@ -181,7 +181,7 @@ class RaggedIndexedContiguousArray(RaggedArray):
         for d, size in enumerate(self.source().shape):
             if d == d1:
                 index = np.array(self.get_index())
-                unique = np.unique(index).tolist()
+                n_features = self.shape[u_dims[0]]
                 count_partial_sums = np.cumsum(
                     np.array(self.get_count())
                 ).tolist()
@@ -189,7 +189,12 @@ class RaggedIndexedContiguousArray(RaggedArray):
                 max_n_profiles = self.shape[u_dims[1]]
 
                 ind = []
-                for i in unique:
+                for i in range(n_features):
+                    # Loop over every feature, including those that
+                    # have no profiles, so that the compressed
+                    # indices stay aligned with the uncompressed
+                    # array.
+                    #
                     # find the locations in the count array for the profiles
                     # in this feature.
                     profile_locations = np.where(index == i)[0]
